@@ -192,7 +192,10 @@ func c18Types() []c18Type {
 			// ZADD options
 			[]string{"ZADD", k, "NX", "3", "a"}, []string{"ZADD", k, "XX", "3", "a"}, []string{"ZADD", k, "XX", "CH", "0", "b", "0", "c"}, []string{"ZADD", k, "GT", "2", "a"}, []string{"ZADD", k, "LT", "CH", "2", "a"}, []string{"ZADD", k, "INCR", "1", "a"}, []string{"ZADD", k, "XX", "INCR", "1", "b"})
 	}
-	str = append(str, []string{"MSET", "k1", "x", "k2", ""}, []string{"MSET", "k2", "5", "k2", "x"}, []string{"MGET", "k1", "k2"})
+	str = append(str, []string{"MSET", "k1", "x", "k2", ""}, []string{"MSET", "k2", "5", "k2", "x"}, []string{"MGET", "k1", "k2"},
+		// all or nothing (the pair list is walked in every order the map iteration gives: sorted here)
+		[]string{"MSETNX", "k1", "m", "k2", "m"}, []string{"MSETNX", "k2", "n", "k1", "n", "k3", "n"}, []string{"MSETNX", "k0", "o", "k2", "o"}, []string{"GET", "k0"}, []string{"GET", "k3"},
+		[]string{"INCRBY", "k1", "0"}, []string{"DECRBY", "k2", "0"})
 	mk := func(name string, cmds [][]string, ro [][]string) c18Type {
 		return c18Type{Name: name, Cmds: append(append([][]string{}, cmds...), generic...), Readout: append(append([][]string{}, common...), ro...)}
 	}
